@@ -304,6 +304,7 @@ def main(argv=None):
     seed = int(os.environ.get("VERIF_SEED", "0") or 0)
     warnings.simplefilter("ignore")
     sys.dont_write_bytecode = True
+    sys.set_int_max_str_digits(0)
     mod = importlib.import_module(f"qverif.props.{pid.lower()}")
     if a.replay:
         data = json.load(open(a.replay))
@@ -368,9 +369,67 @@ def run_plan(rep, plan, scenarios, opts, workers=None, canaries=()):
         break
     workers = workers or int(os.environ.get("QVERIF_WORKERS", "0")) or min(16, os.cpu_count() or 1)
     ctx = mp.get_context("fork")
-    with ctx.Pool(min(workers, max(1, len(items)))) as pool:
-        results = pool.map(_scen_worker, [(name, params, opts, modname) for _, name, params, _, _ in items], chunksize=1)
+    limit = float(opts.get("scenario_wall_s", 240 if rep.tier == "quick" else 1500))
+    opts = dict(opts)
+    opts.setdefault("deadline_s", limit * 0.8)
+    results = [None] * len(items)
+
+    def child(conn, arg):
+        try:
+            r = _scen_worker(arg)
+            conn.send(r)
+        except BaseException as ex:  # noqa: BLE001
+            try:
+                conn.send(RuntimeError(f"{type(ex).__name__}: {ex}"))
+            except Exception:
+                pass
+        finally:
+            conn.close()
+            os._exit(0)
+
+    queue = list(range(len(items)))
+    running = {}
+    while queue or running:
+        while queue and len(running) < workers:
+            k = queue.pop(0)
+            pc, cc = ctx.Pipe(duplex=False)
+            _, name, params, _, _ = items[k]
+            pr = ctx.Process(target=child, args=(cc, (name, params, opts, modname)), daemon=True)
+            pr.start()
+            cc.close()
+            running[k] = (pr, pc, time.time())
+        done = []
+        for k, (pr, pc, t0) in running.items():
+            if pc.poll(0):
+                try:
+                    results[k] = pc.recv()
+                except (EOFError, OSError) as ex:
+                    results[k] = RuntimeError(f"worker died: {ex}")
+                done.append(k)
+            elif not pr.is_alive():
+                results[k] = RuntimeError("worker exited without a result")
+                done.append(k)
+            elif time.time() - t0 > limit:
+                pr.kill()
+                results[k] = None
+                done.append(k)
+        for k in done:
+            pr, pc, _ = running.pop(k)
+            pr.join(timeout=5)
+            pc.close()
+        if not done:
+            time.sleep(0.02)
     for (tag, name, params, reach, canary), res in zip(items, results):
+        if res is None or isinstance(res, Exception):
+            from .symx import Result
+
+            r = Result()
+            if res is None:
+                r.bound_hits.append(f"scenario wall-clock limit ({limit:.0f}s) hit: a solver query or the path count exceeded the budget")
+            else:
+                r.errors.append(f"worker failed: {res}")
+            rep.add(tag, r, params, expect_reach=(), canary=canary)
+            continue
         rep.add(tag, res, params, expect_reach=reach, canary=canary)
         rep.note_sample({"scenario": tag, "paths": res.paths, "obligations": {f"{k[0]}:{k[1]}": v for k, v in res.oblig.items()}})
 
